@@ -151,6 +151,9 @@ class LC:
             return self.table(e.args[0], at, depth + 1)
         if isinstance(e, ast.Constant) and e.value is None:
             return set()
+        if isinstance(e, ast.Subscript) and astx.path(e.value) == self.case and \
+                astx.const_str(e.slice) in ('inputs', 'outputs'):
+            return {(astx.const_str(e.slice), 'dict', 'keys')}
         if isinstance(e, ast.DictComp) and len(e.generators) == 1:
             it = e.generators[0].iter
             if isinstance(it, ast.Call) and astx.callee_attr(it) == 'values' and not it.args:
@@ -165,9 +168,56 @@ class LC:
                 return None
             out = set()
             for d in ds:
-                if d.kind == 'stmt' and isinstance(d.ast, ast.Assign) and len(d.ast.targets) == 1 and \
-                        isinstance(d.ast.targets[0], ast.Name):
+                if d.kind == 'stmt' and isinstance(d.ast, ast.Assign) and \
+                        all(isinstance(t, ast.Name) for t in d.ast.targets):
                     r = self.table(d.ast.value, d, depth + 1)
+                    if r is None:
+                        return None
+                    out |= r
+                else:
+                    return None
+            return out
+        return None
+
+    def dict_key_kinds(self, e, at, kind, depth=0):
+        """Kinds of key a dict-form table expression is keyed by: {'abs'|'prom'[_out]} or None if unknown."""
+        suf = '' if kind == 'inputs' else '_out'
+        if depth > 6:
+            return None
+        if isinstance(e, ast.IfExp):
+            p = self.dict_polarity(e.test)
+            if p is True:
+                return self.dict_key_kinds(e.body, at, kind, depth + 1)
+            if p is False:
+                return self.dict_key_kinds(e.orelse, at, kind, depth + 1)
+            a, b = self.dict_key_kinds(e.body, at, kind, depth + 1), self.dict_key_kinds(e.orelse, at, kind, depth + 1)
+            return None if a is None or b is None else a | b
+        if isinstance(e, ast.Constant) and e.value is None:
+            return set()
+        if isinstance(e, ast.Attribute) and astx.path(e.value) == self.case:
+            return set()        # Case-mode table
+        if isinstance(e, ast.Call) and not e.args and astx.callee_attr(e) in ('keys', 'absolute_names'):
+            return self.dict_key_kinds(astx.receiver(e), at, kind, depth + 1)
+        if isinstance(e, ast.Call) and astx.call_name(e) in ('list', 'tuple', 'sorted') and len(e.args) == 1:
+            return self.dict_key_kinds(e.args[0], at, kind, depth + 1)
+        if isinstance(e, ast.Subscript) and astx.path(e.value) == self.case and astx.const_str(e.slice) == kind:
+            return {'abs' + suf}            # list_inputs/list_outputs dictionaries are keyed by absolute name
+        if isinstance(e, ast.DictComp):
+            k = e.key
+            if isinstance(k, ast.Subscript) and astx.const_str(k.slice) == 'prom_name':
+                return {'prom' + suf}
+            if isinstance(k, ast.Name) and isinstance(e.generators[0].target, ast.Tuple) and \
+                    isinstance(e.generators[0].target.elts[0], ast.Name) and \
+                    e.generators[0].target.elts[0].id == k.id:
+                return {'abs' + suf}
+            return None
+        if isinstance(e, ast.Name):
+            ds = self.rd.defs(at, e.id)
+            out = set()
+            for d in ds:
+                if d.kind == 'stmt' and isinstance(d.ast, ast.Assign) and \
+                        all(isinstance(t, ast.Name) for t in d.ast.targets):
+                    r = self.dict_key_kinds(d.ast.value, d, kind, depth + 1)
                     if r is None:
                         return None
                     out |= r
@@ -371,6 +421,51 @@ def _check_loop_nodrop(lc, out, loop, stmt, label):
     return delegated
 
 
+def _check_dict_entry(lc, out, loop):
+    """Dict form: whenever case[<kind>] is present, the table of that kind is built from it."""
+    g, fn = lc.g, lc.fn
+    if 'dict' not in loop.modes:
+        return
+    builds = []
+    for n in g.nodes:
+        if n.kind == 'stmt' and isinstance(n.ast, ast.Assign) and \
+                isinstance(n.ast.value, (ast.DictComp, ast.Subscript)):
+            tk = lc.table(n.ast.value, n)
+            if tk and {(k, m) for k, m, _ in tk} == {(loop.kind, 'dict')}:
+                builds.append(n)
+    if not builds:
+        return
+
+    def has_entry(t):
+        """polarity of `'<kind>' in case` / `'<kind>' not in case`"""
+        if isinstance(t, ast.UnaryOp) and isinstance(t.op, ast.Not):
+            p = has_entry(t.operand)
+            return None if p is None else not p
+        if isinstance(t, ast.Compare) and len(t.ops) == 1 and isinstance(t.ops[0], (ast.In, ast.NotIn)) and \
+                astx.const_str(t.left) == loop.kind and astx.path(t.comparators[0]) == lc.case:
+            return isinstance(t.ops[0], ast.In)
+        return None
+
+    def edge_ok(n, m, lab):
+        if n.kind == 'test' and lab in ('true', 'false') and isinstance(n.ast, ast.If):
+            if _model_override_test(lc, n):
+                return lab == 'false'
+            p = lc.dict_polarity(n.ast.test)
+            if p is None:
+                p = has_entry(n.ast.test)
+            if p is not None:
+                return (lab == 'true') == p
+        return True
+    w = g.path([g.entry], [g.exit, loop.hdr], avoid=builds, labels=cfgm.noexc, edge_ok=edge_ok)
+    if w is None:
+        out.ok(fn, builds[0].ast, f"dict form: the {loop.kind} table is built on every path on which "
+               f"'{loop.kind}' is in the case")
+    else:
+        out.bad(fn, builds[0].ast, f"dict form: the case has an '{loop.kind}' entry but the table is not built "
+                f'from it on the path {g.fmt_path(w)}: every recorded {loop.io} is silently ignored',
+                key=f'dict-{loop.kind}-not-built')
+
+
 @rule('C19.nodrop', floor=3)
 def nodrop(repo, out):
     """No entry of case.inputs/case.outputs is silently skipped; loops run whenever their table is non-empty."""
@@ -395,6 +490,7 @@ def nodrop(repo, out):
                 if p == 'other':
                     unknown.append(n)
             return True
+        _check_dict_entry(lc, out, loop)
         w = g.path([g.entry], [g.exit], avoid=[loop.hdr], labels=cfgm.noexc, edge_ok=edge_ok)
         if w is None:
             out.ok(fn, loop.stmt, f'the {loop.kind} loop is on every normal path on which the table is non-empty')
@@ -1019,6 +1115,9 @@ def case_keyspace(repo):
                     space[tab]['keys'].setdefault('autoivc', c)
     if n_calls < 6:
         raise AnalysisError(f'{pi.ident}: only {n_calls} super().__setitem__ calls recognised')
+    # promoted names in a case are those of the system the recorder was attached to
+    if 'prom_out' in space['outputs']['keys'] and _recorder_maps_are_relative(repo):
+        space['outputs']['keys']['relprom_out'] = space['outputs']['keys']['prom_out']
     # absolute_names() yields the raw recorded keys
     an = repo.func(CASE, 'PromAbsDict.absolute_names')
     ys = [n for n in astx.walk(an.node) if isinstance(n, ast.Yield)]
@@ -1030,6 +1129,33 @@ def case_keyspace(repo):
     else:
         space['inputs']['absolute_names'] = space['outputs']['absolute_names'] = None
     return space
+
+
+REC = 'openmdao/recorders/sqlite_recorder.py'
+
+
+def _recorder_maps_are_relative(repo):
+    """True if SqliteRecorder.startup takes abs2prom from the recording System itself (not the model)."""
+    fn = repo.func(REC, 'SqliteRecorder.startup')
+    if len(fn.node.args.args) < 2:
+        raise AnalysisError(f'{fn.ident}: signature changed')
+    req = fn.node.args.args[1].arg
+    src = None
+    for c in astx.calls(fn.node):
+        if astx.callee_attr(c) == 'update' and astx.path(astx.receiver(c)) == "self._abs2prom['output']" and c.args:
+            a = c.args[0]
+            if isinstance(a, ast.Call) and astx.callee_attr(a) == 'abs2prom_iter':
+                r = astx.receiver(a)
+                if isinstance(r, ast.Attribute) and r.attr == '_resolver' and isinstance(r.value, ast.Name):
+                    src = r.value.id
+    if src is None:
+        raise AnalysisError(f'{fn.ident}: source of the recorded abs2prom map not recognised')
+    rel = False
+    for st in astx.walk_stmts(fn.node.body):
+        if isinstance(st, ast.Assign) and len(st.targets) == 1 and astx.path(st.targets[0]) == src:
+            if astx.path(st.value) in (req, f'{req}._system()'):
+                rel = True
+    return rel
 
 
 # three-valued evaluation of the name gates for one kind of key
@@ -1057,13 +1183,75 @@ def _gate_atom(lc, c, kind, var):
     return bool(ios) and (iov is None or iov in ios)
 
 
-def gate_eval(lc, t, kind, var):
+def _rec_abs_filter(lc, e, var):
+    """`[n for n in <table>._prom2abs.get(var, ()) if resolver.is_abs(n, io)]`: the absolute names recorded
+    under key `var` that exist in the model.  Returns the io literal ('input'/'output'/None) or False."""
+    if isinstance(e, ast.Call) and astx.call_name(e) in ('list', 'tuple') and len(e.args) == 1:
+        e = e.args[0]
+    if not (isinstance(e, (ast.ListComp, ast.GeneratorExp)) and len(e.generators) == 1):
+        return False
+    gen = e.generators[0]
+    if not (isinstance(gen.target, ast.Name) and isinstance(e.elt, ast.Name) and e.elt.id == gen.target.id
+            and len(gen.ifs) == 1):
+        return False
+    it = gen.iter
+    if isinstance(it, ast.Call) and astx.callee_attr(it) == 'get' and it.args and \
+            isinstance(it.args[0], ast.Name) and it.args[0].id == var:
+        m = astx.receiver(it)
+    elif isinstance(it, ast.Subscript) and isinstance(it.slice, ast.Name) and it.slice.id == var:
+        m = it.value
+    else:
+        return False
+    if not (isinstance(m, ast.Attribute) and m.attr == '_prom2abs'):
+        return False
+    c = gen.ifs[0]
+    if not (isinstance(c, ast.Call) and astx.callee_attr(c) == 'is_abs' and lc.is_resolver(astx.receiver(c)) and
+            c.args and isinstance(c.args[0], ast.Name) and c.args[0].id == gen.target.id):
+        return False
+    io = astx.arg(c, 1, 'iotype')
+    return astx.const_str(io) if io is not None else None
+
+
+# does a recorded absolute name exist in the model for a key of this kind?  (None = either)
+# (an absolute name is no key of _prom2abs unless it is its own promoted name)
+_REC_ABS_TRUTH = {'relprom_out': True, 'abs_out': False, 'prom_out': None, 'autoivc': False,
+                  'abs': False, 'prom': None}
+
+
+def _name_truth(lc, t, kind, var, at, dmode):
+    """Truthiness of a local Name that holds the recorded-absolute-names filter (or an empty default)."""
+    if at is None:
+        return None
+    vals = set()
+    for d in lc.rd.defs(at, t.id):
+        if not (d.kind == 'stmt' and isinstance(d.ast, ast.Assign) and len(d.ast.targets) == 1):
+            return None
+        m = lc.mode_at(d)
+        if m is not None and m != dmode:
+            continue
+        v = d.ast.value
+        if isinstance(v, (ast.Tuple, ast.List)) and not v.elts:
+            vals.add(False)
+        elif isinstance(v, ast.Constant) and v.value is None:
+            vals.add(False)
+        elif _rec_abs_filter(lc, v, var) is not False:
+            io = _rec_abs_filter(lc, v, var)
+            want = 'input' if kind in ('abs', 'prom') else 'output'
+            vals.add(_REC_ABS_TRUTH.get(kind) if io in (None, want) else False)
+        else:
+            return None
+    return vals.pop() if len(vals) == 1 else None
+
+
+def gate_eval(lc, t, kind, var, at=None, dmode=False):
     """True/False/None(unknown) of test t for a key of `kind` bound to `var`."""
     if isinstance(t, ast.UnaryOp) and isinstance(t.op, ast.Not):
-        v = gate_eval(lc, t.operand, kind, var)
+        v = gate_eval(lc, t.operand, kind, var, at, dmode)
         return None if v is None else not v
+    if isinstance(t, ast.Name):
+        return _name_truth(lc, t, kind, var, at, dmode)
     if isinstance(t, ast.BoolOp):
-        vals = [gate_eval(lc, v, kind, var) for v in t.values]
+        vals = [gate_eval(lc, v, kind, var, at, dmode) for v in t.values]
         if isinstance(t.op, ast.And):
             if any(v is False for v in vals):
                 return False
@@ -1086,8 +1274,9 @@ def _looks_like_name_gate(lc, t, var):
     return False
 
 
-def simulate(lc, loop, kind):
-    """Nodes of the loop body reachable for a present variable whose key is of `kind` (normal edges)."""
+def simulate(lc, loop, kind, dict_mode=False):
+    """Nodes of the loop body reachable for a present variable whose key is of `kind` (normal edges),
+    in Case mode (default) or dict mode: tests on the dict/Case flag are pinned."""
     g = lc.g
     body = set(g.body_nodes(loop.stmt))
     start = [m for m, lab in g.succ[loop.hdr] if lab == 'true']
@@ -1098,7 +1287,11 @@ def simulate(lc, loop, kind):
         n = dq.popleft()
         val = None
         if n.kind == 'test' and isinstance(n.ast, ast.If):
-            val = gate_eval(lc, n.ast.test, kind, loop.var)
+            val = gate_eval(lc, n.ast.test, kind, loop.var, n, dict_mode)
+            if val is None:
+                p = lc.dict_polarity(n.ast.test)
+                if p is not None:
+                    val = (p == dict_mode)
             if val is None and _looks_like_name_gate(lc, n.ast.test, loop.var):
                 unknown.append(n)
         for m, lab in g.succ[n]:
@@ -1114,7 +1307,8 @@ def simulate(lc, loop, kind):
 
 _KIND_TEXT = {'abs': 'absolute input names', 'prom': 'promoted input names',
               'abs_out': 'absolute output names', 'prom_out': 'promoted output names',
-              'autoivc': 'promoted input names that stand for _auto_ivc outputs'}
+              'autoivc': 'promoted input names that stand for _auto_ivc outputs',
+              'relprom_out': 'promoted output names relative to the (sub)system the recorder was attached to'}
 
 
 def loop_kinds(lc, loop, space):
@@ -1139,21 +1333,30 @@ def keyspace(repo, out):
             raise AnalysisError(f'no key kinds derived for case.{loop.kind}')
         setn = set(lc.set_val_nodes(loop))
         warn = set(lc.warn_nodes(loop))
-        for kind in sorted(kinds):
-            seen, unknown = simulate(lc, loop, kind)
-            origin = kinds[kind]
-            how = (f'PromAbsDict stores such keys at case.py line {getattr(origin, "lineno", "?")}: '
-                   f'{astx.src(origin)[:70]}')
+        todo = [(k, False, kinds[k]) for k in sorted(kinds)]
+        if 'dict' in loop.modes:
+            dk = lc.dict_key_kinds(loop.stmt.iter, loop.hdr, loop.kind)
+            if dk is None:
+                out.unsure(fn, loop.stmt, f'key space of the dict-form {loop.kind} table not recognised')
+            else:
+                todo += [(k, True, None) for k in sorted(dk)]
+        for kind, dmode, origin in todo:
+            seen, unknown = simulate(lc, loop, kind, dmode)
+            if dmode:
+                how = f"the dict-form table built from case['{loop.kind}'] is keyed that way"
+            else:
+                how = (f'PromAbsDict stores such keys at case.py line {getattr(origin, "lineno", "?")}: '
+                       f'{astx.src(origin)[:70]}')
             if unknown:
                 out.unsure(fn, unknown[0].ast, f'unrecognised test on the loop key for {_KIND_TEXT[kind]}')
             elif seen & setn:
-                out.ok(fn, loop.stmt, f'{_KIND_TEXT[kind]} in case.{loop.kind} reach set_val')
+                out.ok(fn, loop.stmt, f'{_KIND_TEXT[kind]} in {"dict-form " if dmode else "case."}{loop.kind} reach set_val')
             else:
                 end = 'issue_warning("... not found in the model")' if seen & warn else 'no set_val'
-                out.bad(fn, loop.stmt, f'case.{loop.kind} iterated as `{astx.src(loop.stmt.iter)}` yields '
+                out.bad(fn, loop.stmt, f'{"dict-form " if dmode else "case."}{loop.kind} iterated as `{astx.src(loop.stmt.iter)}` yields '
                         f'{_KIND_TEXT[kind]} ({how}), but for such a key the name gate of the loop only leads to '
                         f'{end}: a recorded variable that exists in the model is not restored',
-                        key=f'{loop.kind}-keyspace-{kind}')
+                        key=f'{loop.kind}-keyspace-{"dict-" if dmode else ""}{kind}')
 
 
 # =========================================================================== C19.endpoint
@@ -1211,6 +1414,13 @@ def _endpoint_of_name(lc, loop, site, kind, seen=None):
         if how == 'elt' and isinstance(e, ast.Name) and e.id == loop.var:
             frames.add('key')
             continue
+        if how == 'iter' and _rec_abs_filter(lc, e, loop.var) is not False:
+            io = _rec_abs_filter(lc, e, loop.var)
+            if io in (None, loop.io):
+                # absolute names recorded under this key, of the loop's io kind, that exist in the model
+                frames.add('out' if loop.kind == 'outputs' else 'in')
+                continue
+            return None, f'{astx.src(e)} filters on the other io kind'
         if not isinstance(e, ast.Call):
             return None, f'element source {astx.src(e)} not recognised'
         ca = astx.callee_attr(e)
@@ -1248,8 +1458,11 @@ def endpoint(repo, out):
     for loop in lc.loops:
         kinds = loop_kinds(lc, loop, space)
         sites = sites_of(lc, loop)
-        for kind in sorted(kinds):
-            seen, unknown = simulate(lc, loop, kind)
+        todo = [(k, False) for k in sorted(kinds)]
+        if 'dict' in loop.modes:
+            todo += [(k, True) for k in sorted(lc.dict_key_kinds(loop.stmt.iter, loop.hdr, loop.kind) or ())]
+        for kind, dmode in todo:
+            seen, unknown = simulate(lc, loop, kind, dmode)
             reach = [s for s in sites if s.node in seen]
             if not reach:
                 continue       # nothing stored for this kind: C19.keyspace reports it
@@ -1263,7 +1476,7 @@ def endpoint(repo, out):
                 if frame is None:
                     verdict = ('unsure', st, info)
                     break
-                idx = {f.idx for f in s.fetches if f.guard is not True} or {f.idx for f in s.fetches}
+                idx = {f.idx for f in s.fetches if f.guard is not (not dmode)} or {f.idx for f in s.fetches}
                 if loop.kind == 'inputs':
                     # the recorded input value is in the units / shape (after src_indices) of ONE absolute input
                     if idx == {s.name_var()} or frame == 'same':
@@ -1285,7 +1498,7 @@ def endpoint(repo, out):
                                f'stored with set_val through inputs: it is re-interpreted in each input\'s units '
                                'and src_indices (wrong value when an input declares other units than its '
                                'auto_ivc source, shape error with src_indices)',
-                               f'outputs-{kind}-through-input-endpoint')
+                               f'outputs-{"dict-" if dmode else ""}{kind}-through-input-endpoint')
                     break
                 if frame == 'err':
                     verdict = ('bad', info, f'for {_KIND_TEXT[kind]} `{astx.src(info.iter)}` asks the resolver for '
@@ -1295,8 +1508,8 @@ def endpoint(repo, out):
                 verdict = ('unsure', st, f'end point frame {frame} not expected in the outputs loop')
                 break
             if verdict is None:
-                out.ok(fn, loop.stmt, f'{_KIND_TEXT[kind]}: {len(reach)} set_val site(s) store through an end point '
-                       'in the recorded frame')
+                out.ok(fn, loop.stmt, f'{_KIND_TEXT[kind]}{" (dict form)" if dmode else ""}: {len(reach)} set_val '
+                       'site(s) store through an end point in the recorded frame')
             elif verdict[0] == 'bad':
                 out.bad(fn, verdict[1], verdict[2], key=verdict[3])
             else:
@@ -1637,6 +1850,25 @@ selftest(
     Mutant('nodrop-set-only-in-case-mode', PRB, _OUT_SET,
            _OUT_SET.replace('else:\n                            model.set_val', 'elif not case_is_dict:\n                            model.set_val', 1),
            'C19.nodrop'),
+    Mutant('nodrop-dict-outputs-elif', PRB,
+           "            if 'inputs' in case:\n                inputs = {meta['prom_name']: meta for meta in case['inputs'].values()}\n"
+           "            else:\n                inputs = None\n            if 'outputs' in case:\n"
+           "                outputs = {meta['prom_name']: meta for meta in case['outputs'].values()}\n            else:\n                outputs = None\n",
+           "            inputs = outputs = None\n            if 'inputs' in case:\n"
+           "                inputs = {meta['prom_name']: meta for meta in case['inputs'].values()}\n            elif 'outputs' in case:\n"
+           "                outputs = {meta['prom_name']: meta for meta in case['outputs'].values()}\n", 'C19.nodrop'),
+    Twin('twin-dict-chained-default', PRB,
+         "            if 'inputs' in case:\n                inputs = {meta['prom_name']: meta for meta in case['inputs'].values()}\n"
+         "            else:\n                inputs = None\n            if 'outputs' in case:\n"
+         "                outputs = {meta['prom_name']: meta for meta in case['outputs'].values()}\n            else:\n                outputs = None\n",
+         "            inputs = outputs = None\n            if 'inputs' in case:\n"
+         "                inputs = {meta['prom_name']: meta for meta in case['inputs'].values()}\n            if 'outputs' in case:\n"
+         "                outputs = {meta['prom_name']: meta for meta in case['outputs'].values()}\n"),
+    Mutant('endpoint-autoivc-through-inputs', PRB, 'abs_names = (resolver.source(name),)', "abs_names = resolver.absnames(name, 'input')",
+           'C19.endpoint'),
+    Mutant('deferred-dispatch-under-if-outputs', PRB, _FINAL,
+           '            for sys_name in sorted(system_overrides.keys()):\n                system_overrides[sys_name].load_case(case)\n',
+           'C19.deferred'),
     # ---- deferred
     Mutant('deferred-prefix-without-dot', PRB, "if var_name.startswith(pathname + '.'):",
            'if var_name.startswith(pathname):', 'C19.deferred'),
@@ -1683,11 +1915,22 @@ selftest(
     Mutant('keyspace-outputs-keyed-abs', CASE,
            '                    else:\n                        super().__setitem__(abs2prom[key], val)\n                elif DERIV_KEY_SEP in key:',
            '                    else:\n                        super().__setitem__(key, val)\n                elif DERIV_KEY_SEP in key:',
-           'C19.keyspace'),
+           'C19.keyspace', also=[(PRB, '            for name in outputs:\n', '            for name in outputs:\n')]),
     # ---- endpoint
     Mutant('endpoint-source-dropped', PRB, '(resolver.source(name),)', 'resolver.absnames(name)', 'C19.endpoint'),
     Mutant('endpoint-absnames-input', PRB, "abs_names = resolver.absnames(name, 'output')",
            "abs_names = resolver.absnames(name, 'input')", 'C19.endpoint'),
+    # ---- findings (a) recorder-relative promoted output names and (b) dict-form inputs keyed by promoted
+    # name, as seen from the repaired shape (/tmp/c19/candidate_fix_ab.patch); inapplicable until repaired
+    Mutant('finding-outputs-relative-names@repaired', PRB,
+           "rec_abs = [n for n in outputs._prom2abs.get(name, ()) if resolver.is_abs(n, 'output')]", 'rec_abs = ()',
+           'C19.keyspace'),
+    Mutant('finding-dict-inputs-by-prom@repaired', PRB, "                inputs = case['inputs']\n",
+           "                inputs = {meta['prom_name']: meta for meta in case['inputs'].values()}\n", 'C19.keyspace'),
+    Mutant('repaired-rec-abs-wrong-io@repaired', PRB,
+           "rec_abs = [n for n in outputs._prom2abs.get(name, ()) if resolver.is_abs(n, 'output')]",
+           "rec_abs = [n for n in outputs._prom2abs.get(name, ()) if resolver.is_abs(n, 'input')]",
+           ['C19.keyspace', 'C19.endpoint']),
     # ---- the two findings of this module, as seen from the repaired shape
     Mutant('finding-outputs-through-inputs', PRB, _FAN_FIXED, _FAN, 'C19.endpoint'),
     Mutant('finding-inputs-keyspace', PRB, _IN_HDR_FIXED, _IN_HDR, 'C19.keyspace'),
